@@ -20,7 +20,7 @@ ASSUMPTIONS = [
     "rotations are quantified through t=tan(angle/2) (2-D, angle pi excluded) and non-zero quaternions (3-D)",
     "decimals=None unless the obligation name says 'rounding'; rounding obligations bound the deviation by half a unit in the last kept decimal",
     "two grids are assumed not allclose in at least one attribute (Grid.__eq__ path recorded in the path condition)",
-    "torch.arange element count: the float lattice count is decided by concrete execution per enumerated n, the values by the solver",
+    "torch.arange element count: the float lattice count is decided by concrete execution, exhaustively for every n in [1, 4096] (lattice-count-all-n-*: enumeration of a finite domain, not a solver verdict); the coordinate values by the solver for the enumerated n",
 ]
 BOUNDS = {
     "quick": dict(D=[2, 3], sizes="symbolic integers 2..4096 for transform/anchors; coords n in 1..6", points=2, paths=1),
@@ -207,6 +207,22 @@ def ob_lattice(ctx, n, a):
         ctx.true((c >= -1) & (c <= 1), f"n={n}: all inside [-1, 1]")
 
 
+def ob_lattice_count(ctx, a):
+    """Number of normalised coordinates per axis for EVERY n in [1, 4096] (the property's stated bound). torch.arange
+    computes its element count in floating point, outside the real-arithmetic encoding, so this sub-claim is decided by
+    exhaustive concrete enumeration of the finite domain; the values of the coordinates are decided by the solver in the
+    lattice-n* obligations."""
+    from deepali.core.grid import Grid
+
+    bad = []
+    for n in range(1, 4097):
+        c = Grid(size=(n,), align_corners=a).coords(align_corners=a)
+        ok = c.shape[0] == n and bool((c >= -1).all()) and bool((c <= 1).all())
+        if not ok:
+            bad.append(n)
+    ctx.eq(torch.tensor([float(len(bad))]), torch.zeros(1), f"exactly n coordinates inside [-1, 1] for every n in [1, 4096] (align_corners={a}); failing n: {bad[:8]}")
+
+
 def ob_identity_resample(ctx, D, sizes, a):
     """grid_sample(img, coords(a), align_corners=a) returns the image; the other flag does not."""
     import torch.nn.functional as F
@@ -256,6 +272,11 @@ def ob_cube(ctx, D, a):
     y = cube.transform_points(x, "cube", "cube", to_cube=cube2)
     ctx.eq(cube2.cube_to_world(y), w, "cube -> other cube keeps the world point")
     ctx.eq(cube2.transform_points(y, "cube", "cube", to_cube=cube), x, "cube -> cube2 -> cube")
+    # vectors between two cubes: exactly the linear part of the point map, and path independent through WORLD
+    v12 = cube.transform_vectors(v, "cube", "cube", to_cube=cube2)
+    ctx.eq(v12, cube.transform_points(x + v, "cube", "cube", to_cube=cube2) - y, "cube -> other cube: vectors == linear part of the point map")
+    ctx.eq(v12, cube2.transform_vectors(cube.transform_vectors(v, "cube", "world"), "world", "cube"), "cube -> other cube: vectors == through WORLD")
+    ctx.eq(cube2.transform_vectors(v12, "cube", "cube", to_cube=cube), v, "cube -> cube2 -> cube: vectors round trip")
 
 
 def ob_rounding(ctx, D, A, B, other):
@@ -313,6 +334,8 @@ def obligations(tier: str, seed: int):
     for n in ns:
         for a in (True, False):
             obs.append((f"lattice-n{n}-ac{int(a)}", ob_lattice, dict(n=n, a=a)))
+    for a in (True, False):
+        obs.append((f"lattice-count-all-n-ac{int(a)}", ob_lattice_count, dict(a=a)))
     pairs = [("world", "grid"), ("world", "cube"), ("grid", "cube_corners"), ("cube", "world")]
     if tier == "thorough":
         pairs = [(A, B) for A in AXES for B in AXES if A != B]
